@@ -9,7 +9,6 @@ import (
 	"bytes"
 	"crypto/sha256"
 	"encoding/hex"
-	"fmt"
 	"reflect"
 	"sort"
 	"strconv"
@@ -72,12 +71,12 @@ func (w *walker) walk(v reflect.Value) {
 		}
 		p := pkey{v.Pointer(), v.Type()}
 		if id, ok := w.ids[p]; ok {
-			fmt.Fprintf(&w.buf, "^%d", id)
+			w.buf.WriteString("^" + strconv.Itoa(id))
 			return
 		}
 		w.next++
 		w.ids[p] = w.next
-		fmt.Fprintf(&w.buf, "&%d", w.next)
+		w.buf.WriteString("&" + strconv.Itoa(w.next))
 		w.walk(v.Elem())
 	case reflect.Interface:
 		if v.IsNil() {
@@ -104,7 +103,7 @@ func (w *walker) walk(v reflect.Value) {
 			return
 		}
 		if v.Type().Elem().Kind() == reflect.Uint8 {
-			fmt.Fprintf(&w.buf, "%q", v.Bytes())
+			w.buf.WriteString(strconv.Quote(string(v.Bytes())))
 			return
 		}
 		fallthrough
@@ -123,10 +122,10 @@ func (w *walker) walk(v reflect.Value) {
 			return
 		}
 		keys := v.MapKeys()
-		sort.Slice(keys, func(i, j int) bool { return fmt.Sprint(keys[i]) < fmt.Sprint(keys[j]) })
+		sort.Slice(keys, func(i, j int) bool { return keyString(keys[i]) < keyString(keys[j]) })
 		w.buf.WriteString("map{")
 		for _, k := range keys {
-			fmt.Fprintf(&w.buf, "%v=>", k)
+			w.buf.WriteString(keyString(k) + "=>")
 			w.walk(v.MapIndex(k))
 			w.buf.WriteString(";")
 		}
@@ -148,8 +147,25 @@ func (w *walker) walk(v reflect.Value) {
 			w.buf.WriteString("func")
 		}
 	default:
-		fmt.Fprintf(&w.buf, "<%s>", v.Kind())
+		w.buf.WriteString("<" + v.Kind().String() + ">")
 	}
+}
+
+// keyString renders a map key without going through fmt: this package runs inside simulated tasks, and fmt's
+// pooled printers (sync.Pool) exchanged between two tasks would be a happens-before edge the code under test did
+// not create, hiding real races from the detector.
+func keyString(k reflect.Value) string {
+	switch k.Kind() {
+	case reflect.String:
+		return k.String()
+	case reflect.Int, reflect.Int8, reflect.Int16, reflect.Int32, reflect.Int64:
+		return strconv.FormatInt(k.Int(), 10)
+	case reflect.Uint, reflect.Uint8, reflect.Uint16, reflect.Uint32, reflect.Uint64, reflect.Uintptr:
+		return strconv.FormatUint(k.Uint(), 10)
+	case reflect.Bool:
+		return strconv.FormatBool(k.Bool())
+	}
+	return k.Type().String() + ":" + strconv.Quote(string(Bytes(k.Interface())))
 }
 
 func isZero(v reflect.Value) bool {
